@@ -87,7 +87,7 @@ def core_cases(rng: random.Random, calls_only):
         for k1, k2 in pairs:
             for b2 in (0, 4):
                 for where in ('pre', 'call'):
-                    f = {'pre_fail': {'2': 41}} if where == 'pre' else {'fail': {'2': 31}}
+                    f = {'pre_fail': {'2': 41}} if where == 'pre' else {'fail': {'2': 30 if b2 else 31}}      # 30: raised `from` the real failure
                     out.append({'stages': [stage(k1, 1, **f), stage(k2, 2, b=b2)], 'xs': [1, 2, 3], 'in_pad': 0})
         for where in ('pre', 'call'):
             f = {'pre_fail': {'1': 42}} if where == 'pre' else {'fail': {'1': 32}}
@@ -110,6 +110,10 @@ def core_cases(rng: random.Random, calls_only):
         for c in out:
             c.update(abandon_after=1, reenter=rng.random() < 0.5, capacity=16)
     rng.shuffle(out)
+    if calls_only:
+        # error translation in a worker: the exception that leaves it is chained (`from`) to the real failure one level down
+        out.insert(0, {'stages': [stage('process', 1, fail={'2': 30}), stage('thread', 2, b=4)], 'xs': [1, 2, 3], 'in_pad': 0,
+                       'workload': 'calls', 'abandon_after': 1, 'reenter': False, 'capacity': 16})
     if True:
         # an input that cannot be pickled, to a first stage running in processes: its own request fails, nothing else
         # (and the server still exits with every worker process gone and can be entered again)
@@ -161,7 +165,7 @@ def canon(y):
             text += get_remote_traceback(y)
         return ['err', getattr(y, 'code', None),
                 {'cls': type(y).__name__, 'args': [a if isinstance(a, (int, str)) else repr(a)[:60] for a in y.args[:1]],
-                 'remote': remote, 'site': ('in _one' in text) or ('in _pre' in text)}]
+                 'remote': remote, 'site': ('in _one' in text) or ('in _pre' in text), 'deep': 'in _deep' in text}]
     if isinstance(y, tuple) and len(y) == 2 and isinstance(y[1], (bytes, bytearray)):
         return ['ok', y[0], len(y[1])]
     return ['ok', y, 0]
@@ -303,6 +307,9 @@ def oracle(r):
                 cls = (('FalsyPreErr' if want[1] % 4 == 1 else 'PreErr') if 40 <= want[1] < 50 else ('FalsyStageErr' if want[1] % 4 == 3 else 'StageErr'))
                 if d['cls'] != cls or d['args'] != [want[1]]:
                     return (f'request {x}: exception {d["cls"]}{d["args"]} instead of {cls}[{want[1]}]', None)
+                if 30 <= want[1] < 40 and want[1] % 4 == 2 and not d.get('deep'):
+                    return (f'request {x}: the exception ({d["cls"]}({want[1]}), raised `from` the ValueError of the real failure site) '
+                            f'does not carry the traceback of that site (`_deep`) any more', None)
                 if not d['site']:
                     return (f'request {x}: the exception ({d["cls"]}({want[1]}) from stage {want[2]}) no longer carries the '
                             f'traceback of the failure site (remote text: {d["remote"]})', None)
